@@ -105,7 +105,46 @@ pub fn random_case(rng: &mut StdRng, rep: &mut Report) {
 }
 
 pub fn replay(case: &monlib::Value, rep: &mut Report) {
+    if case["kind"].as_str() == Some("c18-large") {
+        large_capacity_case(case["capacity"].as_u64().unwrap_or(1) as usize, case["extra"].as_u64().unwrap_or(1) as usize, rep);
+        return;
+    }
     let cap = case["capacity"].as_u64().unwrap_or(1) as usize;
     let ops: Vec<Op> = case["ops"].as_array().map(|a| a.iter().map(|o| match o[0].as_str() { Some("put") => Op::Put(o[1].as_u64().unwrap(), o[2].as_u64().unwrap()), Some("get") => Op::Get(o[1].as_u64().unwrap()), _ => Op::Clear }).collect()).unwrap_or_default();
     run_ops(cap, &ops, rep);
+}
+
+/// Capacities far beyond what the random cases use (the engine itself configures 10,000,000):
+/// `capacity + extra` distinct keys are put in order; afterwards exactly the `extra` oldest keys must
+/// be gone, everything else present, and the size must equal the capacity. No model map is kept
+/// (memory) — for distinct sequential keys the expected content is known in closed form.
+pub fn large_capacity_case(cap: usize, extra: usize, rep: &mut Report) {
+    let replay = json!({"kind":"c18-large","capacity":cap,"extra":extra});
+    let r = guarded_mut(|| {
+        let mut t = Table::new(cap);
+        for k in 0..(cap + extra) as u64 {
+            t.put(k.wrapping_mul(0x9E3779B97F4A7C15) | 1, k);
+            if k as usize + 1 == cap && t.len() != cap { return Err(format!("len {} after {} distinct puts", t.len(), cap)); }
+        }
+        if t.len() != cap { return Err(format!("len {} != capacity {} after {} distinct puts", t.len(), cap, cap + extra)); }
+        if t.queue_len() != t.len() { return Err(format!("queue {} != len {}", t.queue_len(), t.len())); }
+        if t.load_factor() != 1.0 { return Err(format!("load factor {} for a full table", t.load_factor())); }
+        for k in 0..(extra as u64 + 3) {
+            let got = t.get(k.wrapping_mul(0x9E3779B97F4A7C15) | 1);
+            let want = if (k as usize) < extra { None } else { Some(k) };
+            if got != want { return Err(format!("key #{} -> {:?}, expected {:?}", k, got, want)); }
+        }
+        let last = (cap + extra - 1) as u64;
+        if t.get(last.wrapping_mul(0x9E3779B97F4A7C15) | 1) != Some(last) { return Err("youngest key missing".into()); }
+        Ok(())
+    });
+    rep.eval();
+    rep.count("large_capacity_cases");
+    rep.add("operations", (cap + extra) as u64);
+    rep.max("max_capacity_exercised", cap as u64);
+    match r {
+        Err(pm) => rep.violation(&format!("table-{}", panic_sig(&pm)), pm, replay),
+        Ok(Err(d)) => rep.violation("table-large-capacity", format!("capacity {}: {}", cap, d), replay),
+        Ok(Ok(())) => rep.distinct_hash(monlib::mix(cap as u64, extra as u64)),
+    }
 }
